@@ -88,7 +88,8 @@ def run_check(check, tier, seed, replay=None):
     states = transitions = 0
     model_report = []
     # 1. model checking of the specification itself
-    for mr in check.models(tier):
+    # (a replay re-validates one stored execution; the models are not what is being asked about)
+    for mr in ([] if replay else check.models(tier)):
         res = tracecheck.model_check(mr.spec, mr.cfg_text, '%s-%s' % (prop, mr.name), workers=mr.workers,
                                      simulate=mr.simulate, timeout=mr.timeout, extra_args=mr.extra_args,
                                      module_text=mr.module_text)
